@@ -165,8 +165,16 @@ def decide(pid, tier, seed, t0, cfg, claimed, deps, functions, unsupported, assu
                 undecided.append((ob, why + ', nothing is concluded'))
             continue
         if ob.meta.get('untracked'):
-            # the clause mentions a value the engine could not track on this path (e.g. a renamed local): never a violation
-            undecided.append((ob, 'clause could not be evaluated on the tracked state (untracked value / renamed local)'))
+            # the clause mentions a value the engine could not track on this path (e.g. a renamed local, an unsupported construct): never a violation by itself.  If the obligation was
+            # discharged on the baseline tree and the source of its function has changed since, the native replay / falsification search is asked for a failing input (as for a stale contract):
+            # a violation is reported only with one
+            why = 'clause could not be evaluated on the tracked state (untracked value / renamed local)'
+            b = baseline.get(ob.name)
+            fh = functions_hash(functions, ob.func)
+            if b and b.get('status') == 'unsat' and b.get('hash') and fh and b['hash'] != fh:
+                stale_refuted.append((ob, why + '; discharged on the baseline tree, source of %s changed' % ob.func))
+            else:
+                undecided.append((ob, why))
             continue
         if st == 'sat':
             refuted_names.add(ob.name)
